@@ -1,11 +1,12 @@
 SPECIFICATION Spec
 CONSTANTS
- Configs <- MCQuick
+ Configs <- MCFFSplit
  DevUserLast = FALSE
  DevFirstWins = FALSE
  DevBibMerge = FALSE
  DevSplitAll = TRUE
  DevTmplMerge = FALSE
  DevSkipUserUnknown = FALSE
+ DevIdReuse = FALSE
 INVARIANT StoreIsDeclarative
 CHECK_DEADLOCK FALSE
